@@ -976,6 +976,8 @@ class RewriteAtQuery(NodeTransformer):
             not self.replaced
             and hasattr(node, "_location")
             and node._location == self.search
+            # a string / number that happens to spell the searched name is not a definition
+            and not isinstance(node, (Constant, Str))
         ):
             self.replaced = True
             return self.replacement_node
